@@ -206,9 +206,9 @@ def run(tier, seed):
     total = Result()
     rng = random.Random(seed)
     if tier == 'quick':
-        lens, nrand, variants = [1, 2, 3, 4, 7], 1500, [('release', 1.0), ('dev', 0.5), ('nightly', 0.5), ('plain', 0.3)]
+        lens, nrand, variants = [1, 2, 3, 4, 7], 1500, [('release', 1.0), ('dev', 0.5), ('nightly', 0.5), ('plain', 0.3), ('bare', 0.3)]
     else:
-        lens, nrand, variants = [1, 2, 3, 4, 7], 20000, [('release', 1.0), ('dev', 1.0), ('nightly', 1.0), ('plain', 0.3)]
+        lens, nrand, variants = [1, 2, 3, 4, 7], 20000, [('release', 1.0), ('dev', 1.0), ('nightly', 1.0), ('plain', 0.3), ('bare', 0.3)]
     exhaustive = {L: nondecreasing_vectors(L + 1) for L in lens}
     try:
         for variant, frac in variants:
@@ -225,6 +225,11 @@ def run(tier, seed):
                 L = rng.choice([3, 10, 15, 31, 64, 100, 127])
                 a = rng.choice([-1, 1]) * 10.0 ** rng.uniform(-10, 10) * rng.choice([0, 1, 1])
                 b = a + 10.0 ** rng.uniform(-10, 10)
+                if i % 3 == 0:
+                    # bin widths in the subnormal range: the step has only a few significant bits, 1/step overflows
+                    a = rng.choice([0.0, 0.0, 1e-308, -3e-310, 5e-324 * rng.randint(1, 1000)])
+                    b = a + 5e-324 * rng.choice([L, 3 * L + 1, 35 * L, rng.randint(L, 2000 * L), int(4e-310 / 5e-324)])
+                    res_subnormal = True
                 if not (a < b):
                     continue
                 work.append(('%s%d' % (prefix, L), [], (a, b)))
